@@ -364,3 +364,162 @@ Example dash_host_is_an_option :
   effective kw_strict (build_open_cmd (mkA (s_o ++ s_Strict ++ s_no) [50;50] [49;53] [51;48] [] [] true FNone FNone []))
   = Some s_no.
 Proof. reflexivity. Qed.
+
+(* ------------------------------------------------------------------------------------------ *)
+(* one transport object over time (open, close, open again ...)                                *)
+(* ------------------------------------------------------------------------------------------ *)
+(* invariant: whatever state the object is in, an open() of the transports as written produces the
+   events of a first open in the same scenario — nothing remembered from an earlier handshake
+   takes part in the check *)
+Lemma run_history_in : forall b l h st s tr,
+  In (s, tr) (run_history (step_open b l) st h) -> tr = open_trace b l s /\ In (HOpen s) h.
+Proof.
+  induction h as [|x h IH]; intros st s tr H; [contradiction|].
+  destruct x as [s0|]; cbn [run_history step_open] in H.
+  - destruct H as [H|H].
+    + inversion H; subst. split; [reflexivity|left; reflexivity].
+    + destruct (IH _ _ _ H) as [H1 H2]. split; [exact H1|right; exact H2].
+  - destruct (IH _ _ _ H) as [H1 H2]. split; [exact H1|right; exact H2].
+Qed.
+
+Theorem history_independent : forall b l h st,
+  run_history (step_open b l) st h = map (fun s => (s, open_trace b l s)) (opens h).
+Proof.
+  induction h as [|x h IH]; intro st; [reflexivity|].
+  destruct x as [s0|]; cbn [run_history step_open opens map]; [f_equal|]; apply IH.
+Qed.
+
+(* the per-open guarantee, for every history and every state the object starts in: an open in
+   strict mode whose presented key is missing from / different to the entry as it is at that
+   open offers nothing and (after a key exchange) ends in ScrapliAuthenticationFailed *)
+Theorem history_protects : forall l h st s tr,
+  In (s, tr) (run_history (step_open true l) st h) ->
+  strict s = true -> key_bad s = true -> (l = Asyncssh -> agrees s) ->
+  no_offer tr = true /\ (handshake_ok s = true -> ends_with AuthenticationFailed tr = true).
+Proof.
+  intros l h st s tr H Hs Hb Ha. destruct (run_history_in _ _ _ _ _ _ H) as [-> _].
+  apply no_offer_before_verify; assumption.
+Qed.
+
+(* ... and whenever something is offered in strict mode, the entry at that open is the key
+   presented at that open *)
+Corollary history_offer_only_to_known_key : forall l h st s tr,
+  In (s, tr) (run_history (step_open true l) st h) ->
+  strict s = true -> (l = Asyncssh -> agrees s) -> no_offer tr = false -> entry s = Some (skey s).
+Proof.
+  intros l h st s tr H Hs Ha Ho. destruct (run_history_in _ _ _ _ _ _ H) as [-> _].
+  eapply offer_implies_key_matches; eassumption.
+Qed.
+
+(* the statement is about histories, not about single opens: it is false of a transport that keeps
+   the server key on the object.  genuine server, close, another server at the same address *)
+Definition hist_full (f : stepfn) : Prop :=
+  forall h s tr, In (s, tr) (run_history f t_init h) -> strict s = true -> key_bad s = true -> libv s <> Trusted ->
+                 no_offer tr = true.
+
+Definition swap_good : scen := mkS true (Some [65;65;65;65]) [65;65;65;65] Trusted true false true true false true false.
+Definition swap_bad : scen := mkS true (Some [65;65;65;65]) [66;66;66;66] Untrusted true false true true false true false.
+Definition swap_history : list hstep := [HOpen swap_good; HClose; HOpen swap_bad].
+
+Theorem first_seen_refuted : ~ hist_full (step_open_first_seen Paramiko).
+Proof.
+  intro H.
+  specialize (H swap_history swap_bad
+    [KeyExchange; CheckPresent; CheckValue; Offer Password; Opened]).
+  assert (X : no_offer [KeyExchange; CheckPresent; CheckValue; Offer Password; Opened] = true).
+  { apply H; [right; left; reflexivity|reflexivity|reflexivity|discriminate]. }
+  discriminate X.
+Qed.
+
+Theorem prev_seen_refuted : ~ hist_full (step_open_prev_seen Paramiko).
+Proof.
+  intro H.
+  specialize (H swap_history swap_bad
+    [KeyExchange; CheckPresent; CheckValue; Offer Password; Opened]).
+  assert (X : no_offer [KeyExchange; CheckPresent; CheckValue; Offer Password; Opened] = true).
+  { apply H; [right; left; reflexivity|reflexivity|reflexivity|discriminate]. }
+  discriminate X.
+Qed.
+
+(* the same history on the transports as written: the second open stops at the value check *)
+Example swap_history_as_written :
+  map snd (run_history (step_open true Paramiko) t_init swap_history) =
+  [[KeyExchange; CheckPresent; CheckValue; Offer Password; Opened];
+   [KeyExchange; CheckPresent; CheckValue; Fail AuthenticationFailed]] /\
+  map snd (run_history (step_open true Asyncssh) t_init swap_history) =
+  [[CheckPresent; KeyExchange; LibVerify; Offer Password; CheckPresent; CheckValue; Opened];
+   [CheckPresent; KeyExchange; LibVerify; Fail AuthenticationFailed]].
+Proof. split; reflexivity. Qed.
+
+Theorem hist_full_as_written : forall l, hist_full (step_open true l).
+Proof.
+  intros l h s tr H Hs Hb Hv. eapply history_protects; try eassumption.
+  intros _ k _ Ht. contradiction.
+Qed.
+
+(* with SSHKnownHosts.lookup and asyncssh's matcher as parameters: a history of (known_hosts file as
+   it is at that open, key presented at that open, rest of the scenario) *)
+Section HistoryWithLookup.
+  Variables khfile host : Type.
+  Variable lookup : khfile -> host -> option bytes.
+  Variable lib_verdict : khfile -> host -> bytes -> verdict.
+  Hypothesis lib_agrees : forall f h k sk, lookup f h = Some k -> lib_verdict f h sk = Trusted -> k = sk.
+
+  Definition hist_of (h : host) (w : list (khfile * bytes * conf)) : list hstep :=
+    flat_map (fun x => let '(f, sk, c) := x in [HOpen (scen_of khfile host lookup lib_verdict f h sk c); HClose]) w.
+
+  Lemma hist_of_in : forall h w s, In (HOpen s) (hist_of h w) ->
+    exists f sk c, In (f, sk, c) w /\ s = scen_of khfile host lookup lib_verdict f h sk c.
+  Proof.
+    induction w as [|[[f sk] c] w IH]; intros s H; [contradiction|].
+    cbn [hist_of flat_map app] in H. destruct H as [H|[H|H]].
+    - inversion H. exists f, sk, c. split; [left; reflexivity|reflexivity].
+    - discriminate.
+    - destruct (IH s H) as [f' [sk' [c' [H1 H2]]]]. exists f', sk', c'. split; [right; exact H1|exact H2].
+  Qed.
+
+  Theorem history_strict_protects_credentials : forall l h w st s tr,
+    In (s, tr) (run_history (step_open true l) st (hist_of h w)) ->
+    exists f sk c, In (f, sk, c) w /\ s = scen_of khfile host lookup lib_verdict f h sk c /\
+      (c_strict c = true ->
+       (lookup f h = None \/ exists k, lookup f h = Some k /\ k <> sk) ->
+       no_offer tr = true /\ (c_handshake c = true -> ends_with AuthenticationFailed tr = true)).
+  Proof.
+    intros l h w st s tr H. destruct (run_history_in _ _ _ _ _ _ H) as [Htr Hin].
+    destruct (hist_of_in _ _ _ Hin) as [f [sk [c [H1 H2]]]]. exists f, sk, c.
+    split; [exact H1|split; [exact H2|]]. intros Hs Hk. subst s tr.
+    apply (strict_protects_credentials khfile host lookup lib_verdict lib_agrees); assumption.
+  Qed.
+End HistoryWithLookup.
+
+(* ---------- system transport: every open of one object ---------- *)
+Lemma build_open_cmd_not_nil : forall a, is_nil (build_open_cmd a) = false.
+Proof. intro a. reflexivity. Qed.
+
+Lemma sys_history_same : forall a n cache,
+  cache = [] \/ cache = build_open_cmd a ->
+  forall argv, In argv (sys_history cache a n) -> argv = build_open_cmd a.
+Proof.
+  induction n as [|n IH]; intros cache Hc argv H; [contradiction|].
+  cbn [sys_history] in H.
+  assert (sys_open cache a = build_open_cmd a) as E.
+  { unfold sys_open. destruct Hc as [->| ->]; [reflexivity|]. rewrite build_open_cmd_not_nil. reflexivity. }
+  rewrite E in H. destruct H as [H|H]; [symmetry; exact H|].
+  apply (IH (build_open_cmd a)); [right; reflexivity|exact H].
+Qed.
+
+Theorem sys_history_strict : forall a n argv,
+  a_strict a = true -> host_ok (a_host a) = true -> In argv (sys_history [] a n) ->
+  effective kw_strict argv = Some s_yes.
+Proof.
+  intros a n argv Hs Hh H. rewrite (sys_history_same a n [] (or_introl eq_refl) argv H).
+  apply system_strict_effective; assumption.
+Qed.
+
+Theorem sys_history_known_hosts : forall a n argv p,
+  a_strict a = true -> host_ok (a_host a) = true -> a_known a = FPath p -> path_ok p = true ->
+  In argv (sys_history [] a n) -> effective kw_ukhf argv = Some p.
+Proof.
+  intros a n argv p Hs Hh Hk Hp H. rewrite (sys_history_same a n [] (or_introl eq_refl) argv H).
+  apply system_known_hosts_effective; assumption.
+Qed.
